@@ -488,12 +488,19 @@ where
         let mut best = tree.current();
         let mut best_fail = first.clone();
         let mut evals = 0usize;
-        let deadline = Instant::now() + Duration::from_secs(120);
-        if !tree.simplify() {
+        let deadline = Instant::now() + Duration::from_secs(if first.hang { 45 } else { 90 });
+        let budget = if std::env::var("AVH_NO_SHRINK").is_ok() {
+            0
+        } else if first.hang {
+            self.shrink_budget.min(12)
+        } else {
+            self.shrink_budget
+        };
+        if budget == 0 || !tree.simplify() {
             return (best, best_fail, evals);
         }
         loop {
-            if evals >= self.shrink_budget || Instant::now() > deadline {
+            if evals >= budget || Instant::now() > deadline {
                 break;
             }
             let cur = tree.current();
@@ -661,7 +668,9 @@ where
             .map(|k| k.signature.clone())
             .collect();
         let known_open = &known_open;
-        let threads = usize::max(1, usize::min(self.threads, total.max(1)));
+        let journal: Option<PathBuf> = std::env::var("AVH_JOURNAL").ok().map(PathBuf::from);
+        let journal = &journal;
+        let threads = if journal.is_some() { 1 } else { usize::max(1, usize::min(self.threads, total.max(1))) };
         std::thread::scope(|scope| {
             for _ in 0..threads {
                 let property = property.clone();
@@ -701,6 +710,21 @@ where
                                     }
                                 }
                             };
+                        if let Some(j) = journal {
+                            // journal mode: name the case before running it, so that a case that
+                            // kills the whole process can be identified afterwards
+                            let file = ReplayFile {
+                                property: property.clone(),
+                                part: self.name.to_string(),
+                                signature: "process-died".into(),
+                                message: "the harness process died while executing this case".into(),
+                                seed,
+                                index,
+                                hang: false,
+                                case: render(&case),
+                            };
+                            let _ = std::fs::write(j, serde_json::to_string(&file).unwrap_or_default());
+                        }
                         let out = (self.exec)(&case);
                         let rendered = render(&case);
                         let key = hash_str(&serde_json::to_string(&rendered).unwrap_or_default());
